@@ -76,6 +76,12 @@ def make_spec(st, idx, tier):
             cands.append((f, "foreign"))
     kinds = sorted({k for _, k in cands})
     out = list(pre)
+    if idx % 8 == 3:
+        g = outlier_gate_ops(st, spec, rows, units, cut)
+        if g is not None:
+            spec["ops"] = out + g
+            spec["outlier_gate_night"] = True
+            return spec
     if kinds:
         kind = choice(st.shadow, kinds)
         f = choice(st.shadow, [c for c, k in cands if k == kind])
@@ -93,11 +99,63 @@ def make_spec(st, idx, tier):
             new["results_dem"] = int(round(old["results_dem"] * scale + st.shadow.integers(0, 50)))
             new["results_gop"] = int(round(old["results_gop"] * float(st.shadow.uniform(0.0, 3.0)) + st.shadow.integers(0, 50)))
         new["results_turnout"] = new["results_dem"] + new["results_gop"] + int(st.shadow.integers(0, 30))
+        if kind != "nonreporting" and chance(st.shadow, 0.3):
+            # an excluded unit stays excluded wherever its expected-vote share stands: let it cross the reporting threshold too
+            thr = profile["threshold"]
+            new["percent_expected_vote"] = int(st.shadow.integers(0, max(1, thr))) if old["percent_expected_vote"] >= thr else choice(st.shadow, [thr, 100])
         out.append(dict(t=round(cut, 3), k="poll", role="before"))
         out.append(dict(t=round(cut, 3), k="set_row", u=f, row=new, kind=kind))
         out.append(dict(t=round(cut, 3), k="poll", role="after"))
     spec["ops"] = out
     return spec
+
+
+N_MIN_OUTLIER = 20  # the detector is fitted only on more than this many units (CombinedDataHandler.n_minimum_for_outlier_detection_model)
+
+
+def outlier_gate_ops(st, spec, rows, units, cut):
+    """Fault placement at a boundary: outlier models on, the number of units eligible for the detector at or just below its
+    minimum, and excluded (blocklisted) units whose crossing of the reporting threshold moves the number of units *at or above
+    the threshold* across that minimum.  Only the excluded unit changes, so nobody else's estimate may."""
+    rng = st.shadow
+    profile = spec["profile"]
+    mp = profile["model_parameters"]
+    thr = profile["threshold"]
+    if thr < 2:
+        return None
+    at = {f: u for f, u in units.items() if not u["foreign"] and f in rows and u["at_threshold"]}
+    cand = sorted(f for f, u in at.items() if u["candidate"])
+    blocked = sorted(f for f, u in at.items() if u["category"] == "non-modeled: blocklisted")
+    o_fixed = len(at) - len(cand) - len(blocked)  # zero-baseline / out-of-range units at the threshold: left as they are
+    e = min(int(rng.integers(12, N_MIN_OUTLIER + 1)), N_MIN_OUTLIER - o_fixed, len(cand) - 1)
+    if e < 8 or len(at) < N_MIN_OUTLIER + 1:
+        return None
+    perm = [cand[int(i)] for i in rng.permutation(len(cand))]
+    new_blocked = sorted(perm[e:])
+    mp["unit_blocklist"] = sorted(set(mp.get("unit_blocklist", [])) | set(new_blocked))
+    mp["outlier_z_threshold"] = round(float(rng.uniform(0.1, 1.2)), 3)
+    mp["fit_turnout_outlier_model"] = True
+    mp["fit_margin_outlier_model"] = bool(chance(rng, 0.5))
+    lowerable = blocked + new_blocked
+    up = bool(chance(rng, 0.5))  # direction of the crossing
+    n_before = N_MIN_OUTLIER if up else N_MIN_OUTLIER + 1
+    n_lower = len(at) - n_before
+    if n_lower < (1 if up else 0) or n_lower > len(lowerable) - (0 if up else 1):
+        return None
+    pick = [lowerable[int(i)] for i in rng.permutation(len(lowerable))]
+    ops = []
+    t = round(cut, 3)
+    for f in pick[:n_lower]:
+        ops.append(dict(t=t, k="set_row", u=f, row=dict(rows[f], percent_expected_vote=int(rng.integers(0, thr))), kind="blocklisted"))
+    f = pick[0] if up else pick[n_lower]
+    old = rows[f]
+    new = dict(old, results_dem=int(old["results_dem"] * float(rng.uniform(0.5, 2.0))) + int(rng.integers(0, 40)),
+               percent_expected_vote=(100 if chance(rng, 0.5) else thr) if up else int(rng.integers(0, thr)))
+    new["results_turnout"] = new["results_dem"] + new["results_gop"] + int(rng.integers(0, 30))
+    ops.append(dict(t=t, k="poll", role="before"))
+    ops.append(dict(t=t, k="set_row", u=f, row=new, kind="blocklisted"))
+    ops.append(dict(t=t, k="poll", role="after"))
+    return ops
 
 
 class Checker(C.BaseChecker):
@@ -167,6 +225,10 @@ class Checker(C.BaseChecker):
                                       estimator=pi, kind=kind, table=("unit_data" if name == "unit_data" else "aggregate"), column=d[0].split("_")[0]))
                     break
         st.probes["perturbed:" + str(kind)] += 1
+        if ex.spec.get("outlier_gate_night"):
+            st.probes["excluded_unit_crosses_threshold_at_outlier_detector_minimum"] += 1
+            if any(C.flagged_by_outlier_model(C.unit_rows(t["unit_data"])[0]) for t in (bef.tables, aft.tables) if "unit_data" in t):
+                st.probes["outlier_gate_night_with_flagged_units"] += 1
         st.probes["estimator:" + pi] += 1
         changed = True
         st.state((pi, kind, tuple(sorted(p["aggregates"])), ex.world["office"], p["handle_unreporting"], p["threshold"]), changed)
